@@ -62,6 +62,14 @@ def cases(rng, tier):
         j = rng.randrange(1 << n)
         idxs = sorted({j, j ^ m} | {j ^ (1 << b) for b in bits} | {rng.randrange(1 << n)})
         cs.append({"kind": "probe", "n": n, "j": j, "idxs": idxs, "e": gen.gate(kind, m, rng)})
+    # (d') registers of 14-17 qubits, serial and threaded, every bit of the gate on the highest qubits (beyond any block of
+    # cells a kernel might work in): every several-bit kind systematically, the rest at random
+    for kind in gen.NOPARAM1:
+        for th in (1, 2, 3, 4):
+            for nb in (2, 3):
+                cs.append(gen.high_probe(rng, kind, nbits=nb, nctrl=0, threads=th, lo=rng.choice([10, 12, 14])))
+    for _ in range(60 if tier == "quick" else 1500):
+        cs.append(gen.high_probe(rng, rng.choice(gen.ALL_KINDS[:-1]), nctrl=rng.choice([0, 0, 0, 1])))
     # (e) structure of h on wide masks (no simulation): len / act_on of every element
     for _ in range(40):
         m = rng.getrandbits(rng.choice([8, 16, 32, 48, 62]))
